@@ -14,6 +14,32 @@ HERE = os.path.dirname(os.path.dirname(os.path.abspath(__file__)))
 SEEDED = os.path.join(HERE, "benign")
 
 
+RELATED = [("pygyro/model/layout.py", ["C01", "C02", "C03", "C04", "C05", "C06", "C17", "C18"]),
+           ("pygyro/model/grid.py", ["C02", "C04", "C06", "C17", "C18", "C05"]),
+           ("pygyro/model/process_grid.py", ["C20", "C18", "C05"]),
+           ("pygyro/splines/", ["C07", "C08", "C09", "C10", "C11", "C12", "C13", "C14", "C15", "C16", "C19", "C05"]),
+           ("pygyro/advection/", ["C05", "C10", "C11", "C12", "C13", "C15", "C19"]),
+           ("pygyro/poisson/", ["C05", "C14", "C15", "C16", "C19"]),
+           ("pygyro/diagnostics/", ["C06", "C17"]),
+           ("pygyro/initialisation/", ["C18", "C06", "C20", "C05", "C15", "C19"]),
+           ("pygyro/utilities/", ["C18", "C06"]),
+           ("fullSimulation.py", ["C05", "C18", "C06"])]
+ALL_RELATED = False
+
+
+def related_checks(d, prop):
+    files = []
+    for ln in open(os.path.join(d, "patch.diff"), errors="replace"):
+        if ln.startswith("+++ b/"):
+            files.append(ln[6:].strip())
+    out = [prop]
+    for f in files:
+        for pref, checks in RELATED:
+            if f.startswith(pref):
+                out += [c for c in checks if c not in out]
+    return out
+
+
 def one(args):
     sid, tier, demo = args
     d = os.path.join(SEEDED, sid)
@@ -38,16 +64,19 @@ def one(args):
     ev = "/tmp/vbenign_ev_%s" % sid
     os.makedirs(ev, exist_ok=True)
     fired = False
-    for chk in meta.get("checks", [prop]):
+    for chk in (related_checks(d, prop) if ALL_RELATED else meta.get("checks", [prop])):
         env = dict(os.environ, VERIF_REPO=scratch, VERIF_EVIDENCE_DIR=ev)
         cp = subprocess.run(["/venv/bin/python", "check.py", chk, "--tier", tier, "--workers", "6"], cwd=HERE, env=env, capture_output=True, text=True)
         keys = [ln.strip() for ln in cp.stdout.splitlines() if ln.strip().startswith("key=")]
         fired |= cp.returncode != 0
         out.append("%s exit=%d %s" % (chk, cp.returncode, keys[0][:170] if keys else ""))
+        if cp.returncode != 0 and ALL_RELATED:
+            with open("/tmp/benign_related_alarms.txt", "a") as f_:
+                f_.write("==== %s %s exit=%d\n%s\n" % (sid, chk, cp.returncode, "\n".join(cp.stdout.splitlines()[-12:])[:3000]))
     shutil.rmtree(ev, ignore_errors=True)
     shutil.rmtree(scratch, ignore_errors=True)
     try:
-        with open(os.path.join(d, "silent.json"), "w") as f:
+        with open(os.path.join(d, "silent_related.json" if ALL_RELATED else "silent.json"), "w") as f:
             json.dump({"id": sid, "property": prop, "tier": tier, "silent": not fired, "checks": out}, f, indent=1)
     except OSError:
         pass
@@ -62,6 +91,10 @@ def main():
         i = argv.index("--tier")
         tier = argv[i + 1]
         del argv[i:i + 2]
+    global ALL_RELATED
+    if "--related" in argv:
+        ALL_RELATED = True
+        argv.remove("--related")
     if "--demo" in argv:
         demo = True
         argv.remove("--demo")
